@@ -631,6 +631,10 @@ class Transition:
         targets: Dict['State', Tuple[float, str]] = {}
         pop_sizes = [self.state_space.epoch.pop_sizes[pop] for pop in self.state_space.lineage_config.pop_names]
 
+        # validate at the point of use, as sizes can reach the epoch by routes that are not validated on construction
+        if any(size <= 0 for size in pop_sizes):
+            raise ValueError('Population sizes must be positive at all times.')
+
         if source.n_loci == 1:
             locus = 0
             for deme in range(source.n_demes):
@@ -766,6 +770,9 @@ class Transition:
 
                         base_rate = self.state_space.epoch.migration_rates[(pop_names[d1], pop_names[d2])]
 
+                        if base_rate < 0:
+                            raise ValueError('Migration rates must not be negative at all times.')
+
                         # scale migration rate by number of lineages in source deme
                         rate = base_rate * cast(int, source.unlinked[locus, d1, block])
 
@@ -804,6 +811,9 @@ class Transition:
 
                     base_rate = self.state_space.epoch.migration_rates[(pop_names[d1], pop_names[d2])]
 
+                    if base_rate < 0:
+                        raise ValueError('Migration rates must not be negative at all times.')
+
                     # scale migration rate by number of lineages in source deme
                     # both loci are assumed to have the same number of linked lineages here
                     rate = base_rate * cast(int, source.linked[0, d1, block])
@@ -825,6 +835,9 @@ class Transition:
         # only recombine if there is more than one locus
         if self.state_space.locus_config.n == 1:
             return targets
+
+        if r < 0:
+            raise ValueError('Recombination rate must be non-negative.')
 
         if isinstance(self.state_space, LineageCountingStateSpace):
 
